@@ -49,6 +49,7 @@ def lib_verdicts(spec, name, sig, kl_prefix):
     """All library verifiers that match the signer kind -> dict label -> bool | 'raised:<Exc>'."""
     k = spec['kind']
     out = {}
+    from ndn.security.validator.digest_validator import union_checker
 
     def call(label, fn):
         try:
@@ -65,10 +66,13 @@ def lib_verdicts(spec, name, sig, kl_prefix):
         pub = K.KEYS[spec['key']]['pub']
         call('verify_rsa', lambda: verify_rsa(RSA.import_key(pub), sig))
         call('RsaChecker', lambda: run_sync(RsaChecker.from_key(kl_prefix, pub)(name, sig)))
+        call('union(RsaChecker,digest)', lambda: run_sync(union_checker(RsaChecker.from_key(kl_prefix, pub), sha256_digest_checker)(name, sig)))
     elif k == 'ecdsa':
         pub = K.KEYS[spec['key']]['pub']
         call('verify_ecdsa', lambda: verify_ecdsa(ECC.import_key(pub), sig))
         call('EccChecker', lambda: run_sync(EccChecker.from_key(kl_prefix, pub)(name, sig)))
+        # the documented way to combine checkers: every member has to pass (the digest checker passes what is not digest-signed)
+        call('union(digest,EccChecker)', lambda: run_sync(union_checker(sha256_digest_checker, EccChecker.from_key(kl_prefix, pub))(name, sig)))
     elif k == 'ed25519':
         pub = K.KEYS[spec['key']]['pub']
         call('verify_ed25519', lambda: verify_ed25519(ECC.import_key(pub), sig))
